@@ -236,6 +236,10 @@ func (e *DNSEntry) decodeRRs(count int, p DNS, offset int, buffer []byte) (int, 
 			}
 
 		case 12: // PTR record
+			if !strings.HasSuffix(string(name), ".in-addr.arpa") {
+				// the owner is not an IPv4 reverse name (e.g. a service PTR): skip the record, keep the message
+				break
+			}
 			s := strings.TrimSuffix(string(name), ".in-addr.arpa")
 			tmp := net.ParseIP(s)
 			if tmp == nil {
